@@ -824,6 +824,20 @@ def _writer_from_cid_path(fmt):
         shutil.rmtree(d, ignore_errors=True)
 
 
+def _writer_non_string_items(fmt):
+    """items that are no strings are rejected like any other bad cell (a FieldValueError naming the field), the writer goes on"""
+    from cutplace import interface, validio, errors
+    text = ("d,format,delimited\nf,a\nf,b\n" if fmt == "delimited" else "d,format,fixed\nd,line delimiter,lf\nf,a,,,2\nf,b,,,2\n")
+    out = io.StringIO(); w = validio.Writer(interface.create_cid_from_string(text), out)
+    for row in (["a1", 5], [None, "b2"], ["a3", 1.5], [b"a4", "b4"], ["a5", ["x"]]):
+        try: w.write_row(list(row)); return {"expected": "row %r rejected" % (row,), "observed": "written"}
+        except errors.FieldValueError: pass
+        except Exception as e: return {"expected": "FieldValueError for row %r" % (row,), "observed": "%s: %s" % (type(e).__name__, e)}
+    w.write_row(["a6", "b6"]); w.close()
+    want = "a6,b6\r\n" if fmt == "delimited" else "a6b6\n"
+    return None if out.getvalue() == want else {"expected": repr(want), "observed": repr(out.getvalue())}
+
+
 def _writer_unique_on_what_is_written(case):
     """IsUnique in a fixed-width CID: the writer judges the values as they are written (padded), so that the output validates again"""
     from cutplace import interface, validio, errors
@@ -861,6 +875,35 @@ def unit_writer_file_sweep():
             c, bad = k14[0]
             res.append(Result("C14/K-14 witness: under an encoding that is not one-to-one a written character reads back as another one", "bounded", FAILED, "native", finding="K-14", cases=len(k14), props=["C14", "C12"], detail=str(bad)[:300],
                               replay={"verdict": "confirmed", "input": f.describe(c), "expected": bad.get("expected"), "observed": bad.get("observed")}))
+        # a row refused for its encoding must leave the stream as it was; stateful codecs do not (recorded finding K-16)
+        known16 = findings.is_known("K-16", "C14"); k16 = []
+        def stateful_cases():
+            for enc, bad_row in (("iso2022_jp", ["\u3042\u20ac", "x"]), ("utf-16", ["\udce9", "x"]), ("utf-8", ["\udce9", "x"]), ("cp1252", ["\u3042", "x"])):
+                for fmt in ("delimited", "fixed"): yield (fmt, enc, bad_row)
+        def stateful_check(c):
+            import tempfile, os, shutil
+            from cutplace import interface, validio, errors
+            fmt, enc, bad_row = c
+            text = ("d,format,delimited\nd,encoding,%s\nf,a,,x,...3\nf,b,,x,...3\n" if fmt == "delimited" else "d,format,fixed\nd,line delimiter,lf\nd,encoding,%s\nf,a,,x,3\nf,b,,x,3\n") % enc
+            good = [["\u3042" if enc in ("iso2022_jp", "utf-16", "utf-8") else "\u00e4", "ab"], ["cd", "ef"]]
+            d = tempfile.mkdtemp(prefix="c14_"); path = os.path.join(d, "out.txt")
+            try:
+                with validio.Writer(interface.create_cid_from_string(text), path) as w:
+                    try: w.write_row(list(bad_row)); return {"expected": "row %r rejected (not encodable in %s)" % (bad_row, enc), "observed": "written"}
+                    except errors.DataError: pass
+                    for r in good: w.write_row(list(r))
+                want = [[x.ljust(3) for x in r] for r in good] if fmt == "fixed" else good
+                try: back = list(validio.rows(interface.create_cid_from_string(text), path))
+                except errors.DataError as e: back = "DataError: %s" % str(e)[:80]
+                if back == want: return None
+                if known16 and enc in ("iso2022_jp", "utf-16"): k16.append((c, back)); return None
+                return {"expected": "after the rejected row the writer goes on: read back %r" % want, "observed": repr(back)}
+            finally: shutil.rmtree(d, ignore_errors=True)
+        res.append(sweep("C14/sweep/a row rejected for its encoding leaves the output as it was", stateful_cases(), stateful_check, "bounded", "iso2022_jp, utf-16, utf-8, cp1252 x delimited and fixed: an unencodable first row, then two rows" + (" (stateful codecs: recorded finding K-16)" if known16 else ""),
+                         describe=lambda c: {"format": c[0], "encoding": c[1], "rejected row": c[2]}, function="rowio writers (target opened by path)", unit="C14.files", props=["C14", "C12"]))
+        if k16:
+            res.append(Result("C14/K-16 witness: after a row rejected for its encoding a stateful codec leaves the stream changed; later rows do not read back", "bounded", FAILED, "native", finding="K-16", cases=len(k16), props=["C14", "C12"], detail=repr(k16[0])[:300],
+                              replay={"verdict": "confirmed", "input": {"format": k16[0][0][0], "encoding": k16[0][0][1], "rejected row": k16[0][0][2]}, "expected": "the rows written after the rejection read back", "observed": repr(k16[0][1])[:200]}))
         if f.k10:
             c, raw = f.k10[0]
             res.append(Result("C14/K-10 witness: delimited output ends its lines with CR LF although the CID declares another line delimiter", "bounded", FAILED, "native", finding="K-10", cases=len(f.k10), props=["C14"], detail=repr(raw)[:200],
@@ -878,6 +921,8 @@ def unit_writer_sweep():
                       "all sequences of 2-3 values over {ab, 'ab ', a, 'a  ', abc, ''} in a 3-wide IsUnique field", describe=lambda c: {"values": list(c)}, function="validio.Writer.write_row", unit="C14.sweep"),
                 sweep("C14/sweep/a failing end-of-data check at close() still leaves the accepted rows in a closed file", ["delimited", "fixed"], _writer_close_with_failing_end_check, "bounded", "2 formats, 3 rows, DistinctCount failing at close",
                       describe=lambda c: {"format": c}, function="validio.Writer.close", unit="C14.sweep"),
+                sweep("C14/sweep/items that are no strings are rejected as bad cells", ["delimited", "fixed"], _writer_non_string_items, "bounded", "2 formats x 5 rows with an int, None, float, bytes, list item",
+                      describe=lambda c: {"format": c}, function="validio.Writer.write_row", unit="C14.sweep", props=["C14", "C10"]),
                 sweep("C14/sweep/a writer created from the path of a CID writes what a writer created from the loaded Cid writes", ["delimited", "fixed"], _writer_from_cid_path, "bounded", "2 formats, 2 rows",
                       describe=lambda c: {"format": c}, function="validio.Writer.__init__", unit="C14.sweep", props=["C14", "C10"])]
     return NativeUnit("C14.sweep", "bounded sweep: Writer emits exactly the accepted rows, nothing for rejected ones, output validates again (incl. after an earlier read with the same CID)", ["C14", "C08"], run, kind="bounded")
@@ -926,6 +971,8 @@ def m_islice(ex, st, fn, args, kw):
 def setup_module_rows(which):
     def setup(ex, st):
         items, c = fresh(UFList(ITEMT), "items"); st.pc.extend(c)
+        import sys as _sys
+        st.pc.append(items.length < _sys.maxsize)          # a data set has fewer than sys.maxsize rows (islice gets min(limit, sys.maxsize))
         vu = fresh(Opt(INT), "validate_until")[0]; so = sort_of(Opt(INT)); st.pc.append(z3.Or(so.is_none(vu.z), so.val(vu.z) >= 0))
         env = {"cid_or_path": Ref("Cid"), "data_stream_or_path": Ref("Stream"), "validate_until": vu}
         if which == "rows": env["on_error"] = fresh(STR, "on_error")[0]; st.pc.append(z3.Or(*[env["on_error"].z == m for m in ("raise", "yield", "continue")]))
@@ -1083,15 +1130,28 @@ def unit_validate_rows():
     OI = sort_of(Opt(INT))
     def setup(ex, st):
         vu = fresh(Opt(INT), "validate_until")[0]; st.pc.append(z3.Or(OI.is_none(vu.z), OI.val(vu.z) >= 0))
-        self = Ref("Reader"); st.heap[self.oid] = {"_validate_until": vu}
+        mode = fresh(STR, "on_error")[0]; st.pc.append(z3.Or(*[mode.z == m for m in ("raise", "yield", "continue")]))
+        self = Ref("Reader"); st.heap[self.oid] = {"_validate_until": vu, "_on_error": mode, "accepted_rows_count": None, "rejected_rows_count": None}
         rows, c = fresh(UFList(STR), "rows"); st.pc.extend(c)
-        st.frames[-1].env.update({"self": self}); st.ghost.update({"rows": rows, "items": rows, "vu": vu, "rows_called": 0, "rows_failed": False, "fail_at": fresh(INT, "fail_at")[0]})
+        import sys as _sys
+        st.pc.append(rows.length < _sys.maxsize)          # a data set has fewer than sys.maxsize rows
+        st.frames[-1].env.update({"self": self}); st.ghost.update({"this": self, "mode": mode, "rows": rows, "items": rows, "vu": vu, "rows_called": 0, "rows_failed": False, "fail_at": fresh(INT, "fail_at")[0], "mode_during": None})
     def m_rows(ex, st, recv, args, kw):
         st.ghost["rows_called"] = Sym(INT, G(st, "rows_called") + 1)
+        st.ghost["mode_during"] = st.heap[recv.oid]["_on_error"]        # the error mode rows() runs in: every data row read shows up as an item unless it is 'continue'
         def raise_fn(ex_, s): 
             s.ghost["rows_failed"] = True
             yield from raise_new(ex_, s, "DataError")
         yield st, FallibleIter(st.ghost["rows"], st.ghost["fail_at"], raise_fn)
+    def counts_every_row(ex, st):
+        m = st.ghost["mode_during"]
+        return Sym(BOOL, z3.BoolVal(False) if m is None else lift(m).z != z3.StringVal("continue"))
+    def restored(ex, st):
+        o = st.heap[st.ghost["this"].oid]
+        return Sym(BOOL, lift(o["_on_error"]).z == G(st, "mode"))
+    def counters_set(ex, st):
+        o = st.heap[st.ghost["this"].oid]
+        return Sym(BOOL, z3.BoolVal(o["accepted_rows_count"] is not None and o["rejected_rows_count"] is not None))
     def consumed_ok(ex, st):
         vu = G(st, "vu"); n = st.ghost["rows"].length; i = lift(st.frames[-1].env.get("_i0", 0)).z
         return Sym(BOOL, i == z3.If(OI.is_none(vu), n, z3.If(OI.val(vu) < n, OI.val(vu), n)))
@@ -1101,9 +1161,13 @@ def unit_validate_rows():
     def make(ctx):
         c = Contract("validio.Reader.validate_rows", setup,
                 returns=[Clause("rows_called == 1 and not rows_failed", "asks-rows()-exactly-once", props=["C06", "C07"]),
-                         Clause(consumed_ok, "consumes-exactly-min(limit,-data-rows)-rows:-without-a-limit-everything-with-a-limit-N-it-stops-after-N-data-rows", props=["C07", "C18"])],
+                         Clause(consumed_ok, "consumes-exactly-min(limit,-data-rows)-rows:-without-a-limit-everything-with-a-limit-N-it-stops-after-N-data-rows", props=["C07", "C18"]),
+                         Clause(counts_every_row, "rows()-runs-in-a-mode-in-which-every-data-row-read-is-an-item-(a-rejected-row-counts-towards-N-also-under-'continue')", props=["C07", "C06"]),
+                         Clause(restored, "the-reader's-error-mode-is-what-it-was", props=["C06"]),
+                         Clause(counters_set, "the-row-counters-are-numbers-afterwards-(also-when-no-row-was-read)", props=["C06", "C07", "C18"])],
                 raises={"DataError": [Clause("rows_failed", "an-error-only-if-rows()-raised-it", props=["C06", "C10"]),
-                                      Clause(within, "a-problem-is-reported-only-within-the-first-N-data-rows", props=["C07", "C18"])]},
+                                      Clause(within, "a-problem-is-reported-only-within-the-first-N-data-rows", props=["C07", "C18"]),
+                                      Clause(restored, "the-reader's-error-mode-is-what-it-was-also-after-an-error", props=["C06"])]},
                 loops={0: LoopSpec(invariants=["rows_called == 1", "not rows_failed"], havoc={"_": STR})},
                 expect=["return", "DataError"], n_loops=1, raises_only_props=["C10"])
         return {"contract": c, "callees": {"ref:Reader.rows": m_rows, "builtin:itertools.islice": m_islice},
